@@ -35,4 +35,93 @@ theorem pacer_model_iter (p : Net α) (i : Nat) :
 /-- the model's data goroutine: `gate a` takes a token (or passes a closed `ctl`), then `fwd a` — `dataIter` -/
 theorem data_model_iter (a : α) : (dataIter a).1.length = 2 ∧ (dataIter a).2 = .cont := ⟨rfl, rfl⟩
 
+/-! ### the model's control-flow graph is the iteration specification -/
+
+/-- the action a pacer control point stands for -/
+def pacerAct (p : Net α) : PC → Option (Act (α ⊕ Unit))
+  | .push i => if i < p.ops then some (.send 1 (.inr ()) .sel) else none
+  | .wait _ => some (.afterSel p.interval)
+  | _ => none
+
+/-- the pacer walks `push 0 … push (ops-1)` (one token each, under select), arms the timer at `push ops`, waits, and
+starts over — one round of `pacerIter`; the only other successors are the Done exit and the (unreachable) panic -/
+theorem pacer_walk (p : Net α) :
+    (∀ i, i < p.ops → ∀ q ∈ pacerNext { p with pc := .push i },
+      q.panicked = true ∨ q.pc = .push (i + 1) ∨ (p.cancelled = true ∧ q.pc = .closing)) ∧
+    (∀ i, p.ops ≤ i → ∀ q ∈ pacerNext { p with pc := .push i }, q.pc = .wait (p.now + p.interval)) ∧
+    (∀ due, ∀ q ∈ pacerNext { p with pc := .wait due }, q.pc = .push 0 ∨ (p.cancelled = true ∧ q.pc = .closing)) := by
+  refine ⟨?_, ?_, ?_⟩
+  · intro i hi q hq
+    simp only [pacerNext, hi, if_true, List.mem_append] at hq
+    rcases hq with hq | hq
+    · split at hq
+      · simp at hq; subst hq; exact Or.inl rfl
+      · split at hq
+        · simp at hq; subst hq; exact Or.inr (Or.inl rfl)
+        · simp at hq
+    · split at hq
+      · simp at hq; subst hq; rename_i hc; exact Or.inr (Or.inr ⟨hc, rfl⟩)
+      · simp at hq
+  · intro i hi q hq
+    have : ¬ i < p.ops := by omega
+    simp [pacerNext, this] at hq
+    subst hq; rfl
+  · intro due q hq
+    simp only [pacerNext, List.mem_append] at hq
+    rcases hq with hq | hq
+    · split at hq
+      · simp at hq; subst hq; exact Or.inl rfl
+      · simp at hq
+    · split at hq
+      · simp at hq; subst hq; rename_i hc; exact Or.inr ⟨hc, rfl⟩
+      · simp at hq
+
+/-- the actions of one pacer round are `pacerIter`: each of the `ops` control points `push 0 … push (ops-1)` stands for one
+token send under select, `wait` for the timer wait, and that is the specification's action list -/
+theorem pacer_walk_acts (p : Net α) :
+    (∀ i, i < p.ops → pacerAct p (.push i) = some (.send 1 (.inr ()) .sel)) ∧
+    (∀ due, pacerAct p (.wait due) = some (.afterSel p.interval)) ∧
+    (pacerIter (α := α) p.ops p.interval).1 = List.replicate p.ops (.send 1 (.inr ()) .sel) ++ [.afterSel p.interval] := by
+  refine ⟨?_, ?_, rfl⟩
+  · intro i hi; simp [pacerAct, hi]
+  · intro due; rfl
+
+/-- the action a control point of the data goroutine stands for -/
+def dataAct : DC α → Option (Act (α ⊕ Unit))
+  | .gate _ => some (.recvSel 1)
+  | .fwd a => some (.send 0 (.inl a) .sel)
+  | _ => none
+
+/-- the data goroutine walks `idle → gate a → fwd a → idle` — `dataIter a` — besides the Done exits, the end of the input
+and the (unreachable) panic -/
+theorem data_walk (p : Net α) (a : α) :
+    (∀ q ∈ dataNext { p with dc := .gate a }, q.dc = .fwd a ∨ (p.cancelled = true ∧ q.dc = .closing .done)) ∧
+    (∀ q ∈ dataNext { p with dc := .fwd a },
+      q.panicked = true ∨ q.dc = .idle ∨ (p.cancelled = true ∧ q.dc = .closing .done)) ∧
+    [dataAct (.gate a), dataAct (.fwd a)].filterMap id = (dataIter a).1 := by
+  refine ⟨?_, ?_, rfl⟩
+  · intro q hq
+    simp only [dataNext, List.mem_append] at hq
+    rcases hq with hq | hq
+    · split at hq
+      · simp at hq; subst hq; exact Or.inl rfl
+      · split at hq
+        · simp at hq; subst hq; exact Or.inl rfl
+        · simp at hq
+    · split at hq
+      · simp at hq; subst hq; rename_i hc; exact Or.inr ⟨hc, rfl⟩
+      · simp at hq
+  · intro q hq
+    simp only [dataNext, List.mem_append] at hq
+    rcases hq with hq | hq
+    · split at hq
+      · simp at hq; subst hq; exact Or.inl rfl
+      · split at hq
+        · simp at hq; subst hq; exact Or.inr (Or.inl rfl)
+        · simp at hq
+    · split at hq
+      · simp at hq; subst hq; rename_i hc; exact Or.inr (Or.inr ⟨hc, rfl⟩)
+      · simp at hq
+
 end Golem.Props.C13
+
